@@ -13,7 +13,7 @@ func init() {
 	registerProperty(&PropertyInfo{
 		ID:    "C09",
 		Title: "Top-N, sorting and paging return the right slice of the full ranking",
-		Rules: []string{"C09.R1", "C09.R2", "C09.R3", "C09.R4", "C09.R5", "C07.R1"},
+		Rules: []string{"C09.R1", "C09.R2", "C09.R3", "C09.R4", "C09.R5", "C09.R6", "C07.R1"},
 		Decides: "two structural conditions (narrow claim): executing a request does not change it - every call of a method that mutates a search.Sort (stores to its direction / missing-first fields) reachable from a request's Collector() is made on a sort order produced by a function whose result elements are all freshly allocated Sorts (a deep copy), never on pointers shared with the request; the collector's pruning shortcut never keeps using a match it returned to the pool (C07.R1). equal sort keys are ordered by hit number only, and the search-after pseudo match is made to tie on that same field. doc values (sort keys) are read through a reader opened on, or cached under, the index reader of the hit.",
 		NotCovered: "the ranking arithmetic itself: comparison of sort keys, tie-breaking, the small/large store switch, offsets.",
 	})
